@@ -141,7 +141,10 @@ def run(ctx):
                     props.append(f"prop.c17add {d} {a} {b}")
                 corr.append(f"ec.eq {d} {reps_p[-1]} {reps_q[0]}")
                 if rng.random() < (0.5 if P is None or Q is None else 0.15):
-                    props.append(f"prop.c17neg {d} {rng.choice(reps_p)} {rng.choice(reps_q)}")
+                    rp_, rq_ = rng.choice(reps_p), rng.choice(reps_q)
+                    props.append(f"prop.c17neg {d} {rp_} {rq_}")
+                    corr.append(f"ec.neg {d} {rp_}")
+                    corr.append(f"ec.negadd {d} {rp_} {rq_}")
                 if P and Q:
                     corr.append(f"ap.add {d} {P[0]},{P[1]} {Q[0]},{Q[1]}")
                     # other integer representatives of the same two points (what __neg__ / __mul__ build, what a caller may pass)
